@@ -331,16 +331,27 @@ class Union:
     def __type_order__(self, other):
         if other is Union:
             return Order.LESS
-        classes = self.types
-        compare = [
-            x for t in classes if (x := typeorder(t, other)) is not Order.NONE
-        ]
-        if not compare:
-            return Order.NONE
-        elif any(x is Order.MORE or x is Order.SAME for x in compare):
+        handler = getattr(other, "_handler", None)
+        others = handler.types if isinstance(handler, type(self)) else (other,)
+        # More general: each part of other is within one of the members
+        more = all(
+            any(
+                typeorder(t, o) in (Order.MORE, Order.SAME) for t in self.types
+            )
+            for o in others
+        )
+        # More specific: every member is within other
+        less = all(
+            typeorder(t, other) in (Order.LESS, Order.SAME) for t in self.types
+        )
+        if more and less:
+            return Order.SAME
+        elif more:
             return Order.MORE
-        else:
+        elif less:
             return Order.LESS
+        else:
+            return Order.NONE
 
     def __is_supertype__(self, other):
         return any(subclasscheck(other, t) for t in self.types)
@@ -357,10 +368,10 @@ class Union:
         return any(isinstance(obj, t) for t in self.types)
 
     def __eq__(self, other):
-        return self.__args__ == other.__args__
+        return set(self.__args__) == set(other.__args__)
 
     def __hash__(self):
-        return hash(self.__args__)
+        return hash(frozenset(self.__args__))
 
     def __str__(self):
         return " | ".join(map(clsstring, self.__args__))
@@ -382,16 +393,27 @@ class Intersection:
     def __type_order__(self, other):
         if other is Intersection:
             return Order.LESS
-        classes = self.types
-        compare = [
-            x for t in classes if (x := typeorder(t, other)) is not Order.NONE
-        ]
-        if not compare:
-            return Order.NONE
-        elif any(x is Order.LESS or x is Order.SAME for x in compare):
+        handler = getattr(other, "_handler", None)
+        others = handler.types if isinstance(handler, type(self)) else (other,)
+        # More specific: one of the members is within each part of other
+        less = all(
+            any(
+                typeorder(t, o) in (Order.LESS, Order.SAME) for t in self.types
+            )
+            for o in others
+        )
+        # More general: other is within every member
+        more = all(
+            typeorder(t, other) in (Order.MORE, Order.SAME) for t in self.types
+        )
+        if more and less:
+            return Order.SAME
+        elif less:
             return Order.LESS
-        else:
+        elif more:
             return Order.MORE
+        else:
+            return Order.NONE
 
     def __is_supertype__(self, other):
         return all(subclasscheck(other, t) for t in self.types)
@@ -408,10 +430,10 @@ class Intersection:
         return all(isinstance(obj, t) for t in self.types)
 
     def __eq__(self, other):
-        return self.__args__ == other.__args__
+        return set(self.__args__) == set(other.__args__)
 
     def __hash__(self):
-        return hash(self.__args__)
+        return hash(frozenset(self.__args__))
 
     def __str__(self):
         return " & ".join(map(clsstring, self.__args__))
